@@ -187,6 +187,22 @@ func vIsShut(a *Association) bool {
 	}
 }
 
+// vWriterWake is what the real write loop does after its first pass: it sleeps until it
+// is woken (a token in awakeWriteLoopCh) and only then gathers. A handler or timer
+// callback that forgets to wake the writer leaves its output unsent, exactly as in the
+// real loop.
+func vWriterWake(a *Association) [][]byte {
+	if vIsShut(a) {
+		return nil
+	}
+	select {
+	case <-a.awakeWriteLoopCh:
+		return vWriterPass(a)
+	default:
+		return nil
+	}
+}
+
 func vWriterPass(a *Association) [][]byte {
 	if vIsShut(a) {
 		return nil
